@@ -441,11 +441,14 @@ pub fn gen_leaf(rng: &mut impl rand::RngCore) -> Fr {
 pub fn gen_pos(rng: &mut impl rand::RngCore, cap: usize, mark: usize, wide: bool, allow_beyond: bool) -> usize {
     let r = rng.gen_range(0..100);
     if allow_beyond && r < 6 {
-        return match rng.gen_range(0..5) {
+        return match rng.gen_range(0..8) {
             0 => cap,
             1 => cap + 1,
             2 => cap.saturating_mul(2),
             3 => cap + rng.gen_range(0..8),
+            4 => usize::MAX,
+            5 => usize::MAX - rng.gen_range(0..cap.min(64)),
+            6 => usize::MAX - cap + 1,
             _ => cap + (1 << 20),
         };
     }
@@ -536,9 +539,10 @@ fn gen_range(rng: &mut impl rand::RngCore, cap: usize, mark: usize, wide: bool, 
         2 => (cap / 2).saturating_sub(n / 2), // crossing the middle
         3 => cap,
         4 => 0,
+        5 if rng.gen_range(0..4) == 0 => usize::MAX - rng.gen_range(0..(n + 2)),
         _ => gen_pos(rng, cap, mark, wide, false),
     };
-    let start = bulk_pos(rng, start, bulk_limit);
+    let start = if start > cap * 2 { start } else { bulk_pos(rng, start, bulk_limit) };
     TOp::Range(start, (0..n).map(|_| gen_leaf(rng)).collect())
 }
 
